@@ -11,7 +11,8 @@ Inductive step :=
 | GNotSeed (w:who)         (* if !b.SeedAppsMap.Contains(w) { return } *)
 | GNotFinal (w:who)        (* if !b.FinalAppsMap.Contains(w) { return } *)
 | GHuman (w:who)           (* if HasPattern(apps[w].GetAttrs(), "human") { return } *)
-| AddUnlessHidden          (* if !HasPattern(apps[target].Endpoints[call.Endpoint].GetAttrs(), "hidden") { b.AddCall(...) } *)
+| AddUnlessHidden          (* if !HasPattern(apps[target].GetEndpoints()[call.Endpoint].GetAttrs(), "hidden") { b.AddCall(...) }
+                              (nil-safe getters: an undefined app or endpoint is "not hidden") *)
 | AddAlways                (* b.AddCall(...) *)
 | AppendFinal (w:who)      (* b.FinalApps = append(b.FinalApps, w) *)
 | WalkPass                 (* b.WalkPassthrough(targetApp, call.Endpoint) *)
